@@ -43,6 +43,34 @@ def subsetsL {α : Type} (l : List α) (a b : Nat) : List (List α) :=
   (List.range (b + 1 - a)).flatMap (fun i => combs (a + i) l)
 
 
+/-! ### well-formed search spaces: every mode name is one the grammar allows -/
+
+def Modes.valid (wc : List String) : Modes → Bool
+  | .names l => l.all (wc.contains ·)
+  | _ => true
+
+def optValid (wc : List String) : Option Modes → Bool
+  | none => true
+  | some m => m.valid wc
+
+/-- every ABSORPTION / ELIMINATION / LAGTIME mode is one of the grammar's (decidable) -/
+def MF.valid (a : MF) : Bool :=
+  optValid Gen.absorptionWildcard a.absorption && optValid Gen.eliminationWildcard a.elimination &&
+    optValid Gen.lagtimeWildcard a.lagtime
+
+/-- every PK attribute is present and there is at least one transit and one peripheral atom
+    (what `ModelFeatures.create` establishes for every non-degenerate PK description) -/
+def MF.full (a : MF) : Bool :=
+  a.absorption.isSome && a.elimination.isSome && a.lagtime.isSome &&
+    !(a.transits.flatMap Transits.atoms).isEmpty && !(a.peripherals.flatMap Peripherals.atoms).isEmpty
+
+/-- the five default atoms `ModelFeatures.create` may insert -/
+def defaultAtoms : List Atom :=
+  Gen.defaultAbsorption.map Atom.abs ++ Gen.defaultElimination.map Atom.elim ++
+  Gen.defaultTransitsCounts.flatMap (fun c => Gen.defaultTransitsDepot.map (Atom.trans c)) ++
+  Gen.defaultPeripheralsCounts.flatMap (fun c => Gen.defaultPeripheralsModes.map (Atom.peri c)) ++
+  Gen.defaultLagtime.map Atom.lag
+
 /-! ### stepwise search: the path rule -/
 
 /-- every step of the path is a key of the table that `_is_allowed` accepts given the keys
